@@ -516,6 +516,11 @@ func (p c18) scenario(r *core.Result, s c18scn, seed uint64) {
 			fail("finished-callback-count", "session %s: Established fired once, Finished fired %d times", id, cb.fin[id])
 		}
 	}
+	for id, ch := range cb.chans {
+		if st := ch.State(); st != lime.SessionStateFinished && st != lime.SessionStateFailed {
+			fail("session-not-finished", "after Close settled the server channel of session %s (Established and Finished callbacks: %d/%d) is still in state %s", id, cb.est[id], cb.fin[id], st)
+		}
+	}
 	for id, n := range cb.fin {
 		if cb.est[id] == 0 {
 			fail("finished-without-established", "the Finished callback fired %d times for session %s, which never had an Established callback", n, id)
